@@ -76,27 +76,39 @@ def check(R):
     with R.clause('c'):
         pass
         for fn, edges_desc in ((TR + '::handle_accept_timeout_rx_packet', 'accept timeout'), (TR + '::handle_orphaned_rx_packet', 'orphan sweep')):
-            clo = closure_in(R, fn, ['Sessions::get_for_rx'])
+            clo = closure_in(R, fn, ['Sessions::get_exch_for_rx'])
             trues = [bb for bb, k, p in prims.result_defs(clo) if k == 'const' and p == 1]
-            R.floor(f'`true` results in {fn}', len(trues), 1 if 'accept' in fn else 3)
+            R.floor(f'`true` results in {fn}', len(trues), 1 if 'accept' in fn else 2)
             clears = [t.bb for t in clo.calls() if t.d.get('f', '').endswith('::clear')]
             R.floor(f'buf.clear() in {fn}', len(clears), 1)
             miss = prims.precedes(clo, clears, trues)
             R.expect('P3', clo.fn, f'{edges_desc}: every `true` result is preceded by packet.buf.clear()', not miss, 'clear precedes', f'`true` at {[clo.where(b) for b in miss]} without clearing the buffer')
             others = [(bb, k) for bb, k, p in prims.result_defs(clo) if k != 'const']
             R.expect('P10', clo.fn, f'{edges_desc}: results are explicit constants', not others, 'ok', f'{others}')
-        at = closure_in(R, TR + '::handle_accept_timeout_rx_packet', ['Sessions::get_for_rx'])
+        at = closure_in(R, TR + '::handle_accept_timeout_rx_packet', ['Sessions::get_exch_for_rx'])
         trues = [bb for bb, k, p in prims.result_defs(at) if k == 'const' and p == 1]
         dropped = [i for i, j, s in at.field_writes('role:' + ES)]
         R.expect('P3', at.fn, 'accept timeout marks the exchange Dropped and notifies the closer', bool(dropped) and not prims.precedes(at, dropped, trues)
                  and any(c.endswith('Notification::notify') or c.endswith('::notify') for c in at.calls_summary), 'role = Dropped; exchange_dropped.notify()', 'missing Dropped write / notify')
         R.cut('P2', at, 'discard on accept timeout', trues, 'the exchange waited longer than the accept deadline', lambda: R.call_guard(at, 'transport::mrp::ReliableMessage::has_rx_timed_out'))
-        orp = closure_in(R, TR + '::handle_orphaned_rx_packet', ['Sessions::get_for_rx'])
-        for callee, desc in (('transport::session::Sessions::get_for_rx', 'no session'), (SESS + '::get_exch_for_rx', 'no exchange')):
-            fe_ = _fail_edges(R, orp, callee)
-            trues = [bb for bb, k, p in prims.result_defs(orp) if k == 'const' and p == 1]
-            bad = [orp.where(f) for (f, t_) in fe_ if set(orp.ret_blocks()) & prims.reach(orp, (t_,), cut_blocks=set(trues))]
-            R.expect('P3', orp.fn, f'orphan sweep: {desc} -> the packet is dropped', bool(fe_) and not bad, 'None edge -> clear + true', f'None edge returns without dropping: {bad}')
+        orp = closure_in(R, TR + '::handle_orphaned_rx_packet', ['Sessions::get_exch_for_rx'])
+        LK = 'transport::session::Sessions::get_exch_for_rx'
+        fe_ = _fail_edges(R, orp, LK)
+        trues = [bb for bb, k, p in prims.result_defs(orp) if k == 'const' and p == 1]
+        bad = [orp.where(f) for (f, t_) in fe_ if set(orp.ret_blocks()) & prims.reach(orp, (t_,), cut_blocks=set(trues))]
+        R.expect('P3', orp.fn, 'orphan sweep: no session / no exchange owns the packet -> the packet is dropped', bool(fe_) and not bad, 'None edge -> clear + true', f'None edge returns without dropping: {bad}')
+        # the combined lookup (several ephemeral group sessions of one sender can match one plain header): it selects with
+        # Session::is_for_rx AND ownership of the exchange, and a session is only returned together with an exchange it owns
+        lk = R.body(LK)
+        lkb = [lk] + list(F.nested(LK))
+        R.expect('P4', LK, 'the packet-to-exchange lookup tests the session (is_for_rx) and the exchange (Session::get_exch_for_rx)',
+                 any(SESS + '::is_for_rx' in b.calls_summary for b in lkb) and any(SESS + '::get_exch_for_rx' in b.calls_summary for b in lkb), 'is_for_rx && get_exch_for_rx', 'one of the two tests is gone')
+        for b in lkb:
+            gx_ = b.calls(SESS + '::get_exch_for_rx')
+            isf = b.calls(SESS + '::is_for_rx')
+            if gx_ and isf:
+                R.cut('P2', b, 'look the exchange up in a session', [t.bb for t in gx_], 'the session matches the packet (is_for_rx)', lambda b=b: R.call_guard(b, SESS + '::is_for_rx'))
+        R.callers_confined('P1', LK, {'transport::Transport::accept_if', TR + '::handle_accept_timeout_rx_packet', TR + '::handle_orphaned_rx_packet'}, min_callers=3)
         R.cut('P2', orp, 'keep the packet (return false)', [bb for bb, k, p in prims.result_defs(orp) if k == 'const' and p == 0], 'session and exchange exist and the exchange is not dropped',
               lambda: _fail_edges(R, orp, 'transport::exchange::Role::is_dropped_state'))
 
